@@ -56,6 +56,10 @@ type LookupCase struct {
 	Query    uint64    `json:"query_epoch"`
 	SlotOff  uint64    `json:"slot_offset"`
 	Seed     uint64    `json:"seed"`
+	// DerivedFrom: the configuration under test is a by-value copy of a Spec with THIS schedule that was
+	// queried before the copy, with the fork epochs then overwritten (how every custom configuration is
+	// made: `c := *configs.Minimal; c.ALTAIR_FORK_EPOCH = …`). nil: built directly.
+	DerivedFrom *[6]uint64 `json:"derived_from,omitempty"`
 }
 
 func (c *LookupCase) cfg() *refspec.Config {
@@ -130,6 +134,25 @@ func runLookup(r *report.Run, c *LookupCase) (f *report.Failure) {
 	var gvr refspec.Root
 	gb, _ := hex.DecodeString(c.GVR)
 	copy(gvr[:], gb)
+	if c.DerivedFrom != nil {
+		bc := *c
+		bc.Epochs = *c.DerivedFrom
+		base := zb.ToSpec(bc.cfg())
+		// use the base configuration first, on both sides of its boundaries and of the derived ones
+		bdec := beacon.NewForkDecoder(base, common.Root(gvr))
+		for _, be := range append(append([]uint64{0, c.Query}, c.DerivedFrom[:]...), c.Epochs[:]...) {
+			if be < (^uint64(0))/c.SPE-1 {
+				base.ForkVersion(common.Slot(be * c.SPE))
+			}
+			bdec.ForkDigest(common.Epoch(be))
+		}
+		d := *base
+		d.ALTAIR_FORK_EPOCH, d.BELLATRIX_FORK_EPOCH, d.CAPELLA_FORK_EPOCH = common.Epoch(c.Epochs[0]), common.Epoch(c.Epochs[1]), common.Epoch(c.Epochs[2])
+		d.DENEB_FORK_EPOCH, d.ELECTRA_FORK_EPOCH, d.FULU_FORK_EPOCH = common.Epoch(c.Epochs[3]), common.Epoch(c.Epochs[4]), common.Epoch(c.Epochs[5])
+		spec = &d
+		r.Class("lookup:configuration-derived-from-a-used-one")
+		r.Hit("lookup:configuration-derived-from-a-used-one")
+	}
 	e := c.Query
 	slot := e*c.SPE + c.SlotOff%c.SPE
 	if e == far {
@@ -144,7 +167,7 @@ func runLookup(r *report.Run, c *LookupCase) (f *report.Failure) {
 	// 1. Spec.ForkVersion
 	if slotOK {
 		if got := spec.ForkVersion(common.Slot(slot)); [4]byte(got) != wantVersion {
-			return report.Failf("ForkVersion/wrong", "schedule %v: Spec.ForkVersion(slot %d, epoch %d) = %x, compute_fork_version says %x (%s)", c.Epochs, slot, e, got, wantVersion, forkNames[wantFork])
+			return report.Failf("ForkVersion/wrong", "schedule %v: Spec.ForkVersion(slot %d, epoch %d) = %x, compute_fork_version says %x (%s)", c.Epochs, slot, e, [4]byte(got), wantVersion, forkNames[wantFork])
 		}
 	}
 	// 2. ForkDecoder.ForkDigest
@@ -363,7 +386,7 @@ func shape(c *LookupCase) string {
 }
 
 func genLookup(t *rapid.T) *LookupCase {
-	c := &LookupCase{SPE: rapid.SampledFrom([]uint64{1, 4, 8, 32}).Draw(t, "spe")}
+	c := &LookupCase{SPE: rapid.SampledFrom([]uint64{1, 4, 8, 32, 3, 6, 12}).Draw(t, "spe")}
 	k := rapid.IntRange(0, 6).Draw(t, "activated")
 	last := uint64(0)
 	for i := 0; i < 6; i++ {
@@ -422,6 +445,26 @@ func genLookup(t *rapid.T) *LookupCase {
 	}
 	c.SlotOff = rapid.Uint64Range(0, 31).Draw(t, "slot_off")
 	c.Seed = rapid.Uint64().Draw(t, "seed")
+	if rapid.IntRange(0, 3).Draw(t, "derived") == 0 {
+		// another schedule of the same kind: each fork epoch moved, dropped or kept
+		var b [6]uint64
+		last := uint64(0)
+		for i := 0; i < 6; i++ {
+			switch rapid.IntRange(0, 3).Draw(t, "base_kind") {
+			case 0:
+				b[i] = c.Epochs[i]
+			case 1:
+				b[i] = far
+			default:
+				b[i] = last + rapid.Uint64Range(0, 6).Draw(t, "base_step")
+			}
+			if b[i] < last {
+				b[i] = last
+			}
+			last = b[i]
+		}
+		c.DerivedFrom = &b
+	}
 	return c
 }
 
@@ -500,6 +543,9 @@ func runChain(r *report.Run, cc *sim.ChainCase) *report.Failure {
 		if s%spe == 0 && l.St.Fork > 0 && cc.Config.ForkEpochs[l.St.Fork-1] == epoch {
 			r.NonTrivial(fmt.Sprintf("chain|%v|%s", cc.Config.ForkEpochs, forkNames[wantFork]))
 			r.Hit("chain-crosses:" + forkNames[wantFork])
+			if spe&(spe-1) != 0 {
+				r.Hit("chain:slots-per-epoch-not-a-power-of-two")
+			}
 			r.Class("chain-boundary:" + forkNames[wantFork])
 		}
 	}
@@ -643,7 +689,7 @@ func checkConstants(r *report.Run) {
 func TestCheck(t *testing.T) {
 	r := report.Begin("C14")
 	defer r.Finish()
-	r.Rule("(a) generated configurations (SLOTS_PER_EPOCH in {1,4,8,32}; non-decreasing fork epochs for altair..fulu incl. 0, equal, adjacent, far apart and never-activated; 7 distinct versions; random genesis validators root) x a queried epoch on or next to a boundary, anywhere, or near the top of the 64-bit range (where only the epoch-keyed lookups ForkDigest/BlockAllocator exist because the start slot does not fit 64 bits; FAR_FUTURE_EPOCH itself excluded); a digest of no configured fork must get no allocator; Spec.ForkVersion, ForkDecoder.ForkDigest, BlockAllocator, random block -> Envelope -> EnvelopeToSignedBeaconBlock identity, VerifySignature under the implied version (must pass) and under each of the six others (must fail); (b) chains advanced slot by slot across every boundary: state type and fork record; (c) the built-in constants enumerated against the pinned table. non-trivial (a) = epoch within 1 of a boundary or coinciding forks; distinct key = (schedule shape, fork at epoch, side)")
+	r.Rule("(a) generated configurations (SLOTS_PER_EPOCH in {1,3,4,6,8,12,32}; a quarter of the configurations are by-value copies of a Spec that was queried under another schedule before its fork epochs were overwritten; non-decreasing fork epochs for altair..fulu incl. 0, equal, adjacent, far apart and never-activated; 7 distinct versions; random genesis validators root) x a queried epoch on or next to a boundary, anywhere, or near the top of the 64-bit range (where only the epoch-keyed lookups ForkDigest/BlockAllocator exist because the start slot does not fit 64 bits; FAR_FUTURE_EPOCH itself excluded); a digest of no configured fork must get no allocator; Spec.ForkVersion, ForkDecoder.ForkDigest, BlockAllocator, random block -> Envelope -> EnvelopeToSignedBeaconBlock identity, VerifySignature under the implied version (must pass) and under each of the six others (must fail); (b) chains (4, 5 or 6 slots per epoch) advanced slot by slot across every boundary: state type and fork record; (c) the built-in constants enumerated against the pinned table. non-trivial (a) = epoch within 1 of a boundary or coinciding forks; distinct key = (schedule shape, fork at epoch, side)")
 	r.Assume("the pinned constants table (spec_tables/constants_v1.5.0-beta.2.json) is the specification's; a constant wrong today and misremembered identically is not detected", "compute_fork_version generalised to electra/fulu in the obvious way", "BlockAllocator is judged up to electra (the library exports no fulu block type)")
 	replay := func(raw json.RawMessage) *report.Failure {
 		var probe map[string]json.RawMessage
@@ -666,7 +712,7 @@ func TestCheck(t *testing.T) {
 	if r.Replay != "" {
 		return
 	}
-	r.Mandatory("constants-enumerated", "lookup:epoch-beyond-slot-range", "lookup:phase0", "lookup:altair", "lookup:bellatrix", "lookup:capella", "lookup:deneb", "lookup:electra", "lookup:fulu",
+	r.Mandatory("constants-enumerated", "lookup:epoch-beyond-slot-range", "lookup:configuration-derived-from-a-used-one", "chain:slots-per-epoch-not-a-power-of-two", "lookup:phase0", "lookup:altair", "lookup:bellatrix", "lookup:capella", "lookup:deneb", "lookup:electra", "lookup:fulu",
 		"chain-crosses:altair", "chain-crosses:bellatrix", "chain-crosses:capella", "chain-crosses:deneb")
 	if r.S.Shard == 0 {
 		checkConstants(r)
@@ -682,8 +728,9 @@ func TestCheck(t *testing.T) {
 	r.Search(t, "chains", 1, r.N(64, 1200), func(rt *rapid.T) (any, *report.Failure) {
 		cc := &sim.ChainCase{}
 		cfgc := sim.GenConfig(rt, 100, false, 1)
-		cfgc.Override["SLOTS_PER_EPOCH"] = 4
-		cfgc.Override["SLOTS_PER_HISTORICAL_ROOT"] = 8
+		spe := rapid.SampledFrom([]uint64{4, 4, 6, 5}).Draw(rt, "chain_spe")
+		cfgc.Override["SLOTS_PER_EPOCH"] = spe
+		cfgc.Override["SLOTS_PER_HISTORICAL_ROOT"] = 2 * spe
 		// every chain activates all four forks within a few epochs (equal/adjacent epochs drawn)
 		var fe [4]uint64
 		last := uint64(1)
